@@ -7,6 +7,7 @@ import (
 	"io"
 	"strconv"
 	"time"
+	"verif/sim/touch"
 
 	spb "google.golang.org/genproto/googleapis/rpc/status"
 	"google.golang.org/grpc"
@@ -200,16 +201,7 @@ func MakePayload(rpc, dir, idx, n int) []byte {
 }
 
 func matchPayload(got []byte, rpc, dir, idx int) bool {
-	exp := MakePayload(rpc, dir, idx, len(got))
-	if len(exp) != len(got) {
-		return false
-	}
-	for i := range exp {
-		if exp[i] != got[i] {
-			return false
-		}
-	}
-	return true
+	return touch.Equal(got, MakePayload(rpc, dir, idx, len(got)))
 }
 
 // ValueLenForSerialized returns the BytesValue payload length whose serialised
@@ -317,10 +309,11 @@ func rpcIDFromContext(ctx context.Context) int {
 func handlerInfo(ts *TestServer, ctx context.Context, method string) *HandlerInfo {
 	hi := &HandlerInfo{Server: ts.Name, Method: method, Now: time.Now()}
 	md, _ := metadata.FromIncomingContext(ctx)
-	hi.ReqMD = md.Copy()
-	hi.TunnelMD, hi.HasTunnelMD = grpctunnel.TunnelMetadataFromIncomingContext(ctx)
-	if p, ok := peer.FromContext(ctx); ok && p.Addr != nil {
-		hi.Peer = p.Addr.String()
+	hi.ReqMD = touch.CopyMD(md)
+	tmd, has := grpctunnel.TunnelMetadataFromIncomingContext(ctx)
+	hi.TunnelMD, hi.HasTunnelMD = touch.CopyMD(tmd), has
+	if p, ok := peer.FromContext(ctx); ok {
+		hi.Peer = touch.PeerString(p)
 	}
 	hi.Marker = MarkerFromContext(ctx)
 	hi.Deadline, hi.HasDeadline = ctx.Deadline()
@@ -398,12 +391,7 @@ func (h *hstream) recv(actor string) (*OpResult, error) {
 	return res, err
 }
 
-func trunc(b []byte, n int) []byte {
-	if len(b) > n {
-		b = b[:n]
-	}
-	return append([]byte(nil), b...)
-}
+func trunc(b []byte, n int) []byte { return touch.Bytes(b, n) }
 
 func (h *hstream) send(actor string, idx int) error {
 	size := 0
@@ -541,17 +529,11 @@ func (h *hstream) exec(actor string, ops []Op) (bool, error) {
 			hi := handlerInfo(h.ts, h.ctx, "")
 			// mutate what the accessor returned, in place and by adding keys ...
 			md1, _ := grpctunnel.TunnelMetadataFromIncomingContext(h.ctx)
-			for k, vs := range md1 {
-				for i := range vs {
-					vs[i] = "MUTATED-BY-RPC-" + strconv.Itoa(h.rpc)
-				}
-				md1[k] = vs
-			}
-			md1["added-by-rpc"] = []string{strconv.Itoa(h.rpc)}
+			touch.Mutate(md1, "MUTATED-BY-RPC-", h.rpc)
 			simrt.Yield(simrt.ClassApp)
 			// ... and read again
 			md2, ok2 := grpctunnel.TunnelMetadataFromIncomingContext(h.ctx)
-			evReturn(h.rpc, actor, OpProbe, 0, &OpResult{Extra: map[string]any{"info": hi, "tunnel_md_again": md2.Copy(), "tunnel_md_again_ok": ok2}})
+			evReturn(h.rpc, actor, OpProbe, 0, &OpResult{Extra: map[string]any{"info": hi, "tunnel_md_again": touch.CopyMD(md2), "tunnel_md_again_ok": ok2}})
 		case OpReturn:
 			evInvoke(h.rpc, actor, OpReturn, 0, 0)
 			if op.St == nil || op.St.Code == 0 {
@@ -692,7 +674,7 @@ func (w *World) RunCaller(parent context.Context, cc grpc.ClientConnInterface, p
 				r.Got = trunc(resp.Value, 64)
 			}
 		}
-		r.Extra = map[string]any{"hdr_target": copyMD(res.HdrTarget), "tlr_target": copyMD(res.TlrTarget), "peer_target": peerString(&res.PeerTarget), "chan_target": res.ChanTarget}
+		r.Extra = map[string]any{"hdr_target": touch.LoadMD(&res.HdrTarget), "tlr_target": touch.LoadMD(&res.TlrTarget), "peer_target": peerString(&res.PeerTarget), "chan_target": touch.Load(&res.ChanTarget)}
 		evReturn(p.ID, "c", OpInvoke, 0, r)
 		return
 	}
@@ -726,19 +708,9 @@ func (w *World) RunCaller(parent context.Context, cc grpc.ClientConnInterface, p
 	simrt.Recv(done)
 }
 
-func copyMD(md metadata.MD) metadata.MD {
-	if md == nil {
-		return nil
-	}
-	return md.Copy()
-}
+func copyMD(md metadata.MD) metadata.MD { return touch.CopyMD(md) }
 
-func peerString(p *peer.Peer) string {
-	if p == nil || p.Addr == nil {
-		return ""
-	}
-	return p.Addr.String()
-}
+func peerString(p *peer.Peer) string { return touch.PeerString(p) }
 
 type cstream struct {
 	w       *World
@@ -784,8 +756,8 @@ func (c *cstream) recvOne(actor string) (bool, error) {
 		// Immediately after the terminal result (no scheduling point in
 		// between): trailers and option targets must be there.
 		r := c.p.Res
-		res.Extra = map[string]any{"trailer": copyMD(c.cs.Trailer()), "hdr_target": copyMD(r.HdrTarget), "tlr_target": copyMD(r.TlrTarget),
-			"peer_target": peerString(&r.PeerTarget), "chan_target": r.ChanTarget}
+		res.Extra = map[string]any{"trailer": copyMD(c.cs.Trailer()), "hdr_target": touch.LoadMD(&r.HdrTarget), "tlr_target": touch.LoadMD(&r.TlrTarget),
+			"peer_target": peerString(&r.PeerTarget), "chan_target": touch.Load(&r.ChanTarget)}
 	}
 	evReturn(c.p.ID, actor, OpRecv, idx, res)
 	return err != nil || single, err
@@ -832,7 +804,7 @@ func (c *cstream) exec(actor string, ops []Op) {
 				// Header() returning the headers is the completion signal for
 				// the grpc.Header target; after a failed Header() (context
 				// ended) a late headers frame may still be written to it
-				res.Extra = map[string]any{"hdr_target": copyMD(p.Res.HdrTarget)}
+				res.Extra = map[string]any{"hdr_target": touch.LoadMD(&p.Res.HdrTarget)}
 			}
 			evReturn(p.ID, actor, OpHeader, 0, res)
 		case OpTrailer:
@@ -859,21 +831,15 @@ func (c *cstream) exec(actor string, ops []Op) {
 			ctx := c.cs.Context()
 			tm, ok := grpctunnel.TunnelMetadataFromOutgoingContext(ctx)
 			tc := grpctunnel.TunnelChannelFromContext(ctx)
-			first := tm.Copy()
-			for k, vs := range tm {
-				for i := range vs {
-					vs[i] = "MUTATED-BY-CALLER-" + strconv.Itoa(p.ID)
-				}
-				tm[k] = vs
-			}
-			tm["added-by-caller"] = []string{strconv.Itoa(p.ID)}
+			first := touch.CopyMD(tm)
+			touch.Mutate(tm, "MUTATED-BY-CALLER-", p.ID)
 			simrt.Yield(simrt.ClassApp)
 			tm2, ok2 := grpctunnel.TunnelMetadataFromOutgoingContext(ctx)
-			evReturn(p.ID, actor, OpProbe, 0, &OpResult{Extra: map[string]any{"tunnel_md": first, "tunnel_md_ok": ok, "tunnel_md_again": tm2.Copy(), "tunnel_md_again_ok": ok2, "tunnel_chan": tc, "chan_target": p.Res.ChanTarget}})
+			evReturn(p.ID, actor, OpProbe, 0, &OpResult{Extra: map[string]any{"tunnel_md": first, "tunnel_md_ok": ok, "tunnel_md_again": touch.CopyMD(tm2), "tunnel_md_again_ok": ok2, "tunnel_chan": tc, "chan_target": touch.Load(&p.Res.ChanTarget)}})
 		case OpReadTargets:
 			evInvoke(p.ID, actor, OpReadTargets, 0, 0)
 			r := p.Res
-			evReturn(p.ID, actor, OpReadTargets, 0, &OpResult{Extra: map[string]any{"hdr_target": copyMD(r.HdrTarget), "tlr_target": copyMD(r.TlrTarget)}})
+			evReturn(p.ID, actor, OpReadTargets, 0, &OpResult{Extra: map[string]any{"hdr_target": touch.LoadMD(&r.HdrTarget), "tlr_target": touch.LoadMD(&r.TlrTarget)}})
 		default:
 			panic(fmt.Sprintf("caller script: bad op %d", op.Kind))
 		}
